@@ -1096,13 +1096,14 @@ def from_json(
                     and isinstance(imag, ak.layout.NumpyArray)
                     and len(imag.shape) == 1
                 ):
-                    return lambda: nplike.asarray(real) + nplike.asarray(imag) * 1j
+                    return lambda: ak.layout.NumpyArray(
+                        nplike.asarray(real) + nplike.asarray(imag) * 1j
+                    )
                 else:
                     raise ValueError(
                         "Complex number fields must be numbers"
                         + ak._util.exception_suffix(__file__)
                     )
-                return lambda: ak.layout.NumpyArray(real + imag * 1j)
             else:
                 return None
         else:
